@@ -35,7 +35,7 @@ def programs(tier, b):
                 B.add({"op": "meth", "name": nm, "a": B.opnd(("S", a)), "tag": "main"})
             add("b%d/%s/S/%d" % (b, nm, a), {"op": nm, "kinds": "S", "a": a, "n": b}, build)
     for nm in ("assert_positive", "to_bits"):
-        for n in [None] + list(range(1, b + 3)):
+        for n in [None] + list(range(0, b + 3)):
             for a in range(-2, (1 << (b + 2)) + 2):
                 def build(B, nm=nm, a=a, n=n):
                     st = {"op": "meth", "name": nm, "a": B.opnd(("S", a)), "tag": "main"}
